@@ -20,7 +20,7 @@ RULE = ("(A) the same generated spec (hierarchy 0-2, shared operators, per-node 
         "edited spec; (D) parser.replace is compared with the tokenizer oracle on random equations over identifier sets that "
         "contain one another; non-trivial = model has an edge or an override (A, B) / edit hits an identifier that is part of a "
         "longer one (C, D); distinct = distinct (spec, mode) hash")
-DECIDING = ['yaml_text_models', 'roundtrip_models', 'derived_templates', 'replace_calls', 'replace_nontrivial', 'derivatives_compared', 'two_variant_roundtrips']
+DECIDING = ['yaml_text_models', 'roundtrip_models', 'derived_templates', 'replace_calls', 'replace_nontrivial', 'derivatives_compared', 'two_variant_roundtrips', 'edit_dictionary_reused']
 ASSUMPTIONS = ['equation edits address whole identifiers on right-hand sides (the left-hand side form x\' is a separate finding)']
 CASE_TIMEOUT = 180
 FOCUS = ['roundtrip_with_overrides', 'roundtrip_after_update_var', 'replace_lhs_prime', 'roundtrip_same_named_templates']
@@ -373,9 +373,16 @@ def case_derived(case, ctx, rnd, mech, res):
     try:
         if via == 'python':
             b = OperatorTemplate(**kw)
-            d = b.update_template(name='dop', equations=copy.deepcopy(edit), variables=dict(var_updates))
+            edit_obj = copy.deepcopy(edit)
+            d = b.update_template(name='dop', equations=edit_obj, variables=dict(var_updates))
             if b.equations != kw['equations'] or any(v not in b.variables for v in kw['variables']):
                 raise observe.Mismatch(f"update_template changed the base operator: {b.equations} {b.variables}")
+            # the same edit dictionary object applied once more (to derive a second template from the same base): same result
+            d_again = b.update_template(name='dop2', equations=edit_obj, variables=dict(var_updates))
+            mech['edit_dictionary_reused'] = 1
+            if list(d_again.equations) != list(d.equations):
+                raise observe.Mismatch(f"the edit dictionary {edit} applied a second time to the same base gives equations {d_again.equations}, "
+                                       f"the first time {d.equations} (dictionary now {edit_obj})")
         else:
             lines = ["%YAML 1.2", "---", "bop:", "  base: OperatorTemplate", "  equations:"]
             for eq in kw['equations']:
